@@ -44,9 +44,15 @@ def _cmp(ctx: Ctx, rule: str, construct: str, fn: FuncInfo, got: T.Term, want: T
                       % (what, got.pretty(), want.pretty()), fn.path, fn.lineno, operand=construct.split(':')[-1])
 
 
+# the vocabulary of the specification: these calls stay uninterpreted, every other repo callee (a helper extracted by a
+# refactoring, a module constant) is looked through
+VOCAB = {'calcTheoreticalBER', 'calcTheoreticalSER', 'calcTheoreticalPER', '_calcTheoreticalSingleCarrierErrorRate',
+         'dB2Linear', 'qfunc', 'level2bits', 'erfc'}
+
+
 def _one(ctx: Ctx, fn: FuncInfo, inline=None) -> T.Term:
     try:
-        ps = T.path_terms(ctx.model, fn, inline)
+        ps = T.path_terms(ctx.model, fn, inline, opaque=VOCAB)
     except T.Unknown as e:
         ctx.error('C16: cannot normalise %s: %s' % (fn.qualname, e))
     ts = {t for _, t in ps}
@@ -86,7 +92,7 @@ def check(ctx: Ctx) -> None:
     # --- spectral efficiency (two paths)
     fn = M.func(FUND, 'Modulator.calcTheoreticalSpectralEfficiency')
     try:
-        paths = T.path_terms(M, fn)
+        paths = T.path_terms(M, fn, opaque=VOCAB)
     except T.Unknown as e:
         ctx.error('C16.a: cannot normalise %s: %s' % (fn.qualname, e))
     K = T.Term.sym('self.K')
@@ -192,7 +198,7 @@ def _check_scale(ctx: Ctx, ser_terms: Dict[str, T.Term]) -> None:
     half = T.Term.const(Fraction(1, 2))
     # ------------------------------------------------------------------ QAM
     cc = M.func(FUND, 'QAM._createConstellation')
-    loc = T.local_terms(M, cc)
+    loc = T.local_terms(M, cc, opaque=set())
     if 'average_energy' not in loc:
         ctx.error('C16.b: QAM._createConstellation no longer defines average_energy as a formula')
     E = T.substitute(loc['average_energy'], {'M': T.Term.sym('self._M')})
@@ -204,7 +210,7 @@ def _check_scale(ctx: Ctx, ser_terms: Dict[str, T.Term]) -> None:
     for n in walk_no_nested(cc.node):
         if isinstance(n, ast.Call) and isinstance(n.func, ast.Name) and n.func.id == 'complex' and len(n.args) == 2:
             try:
-                env = T.Env(M, cc)
+                env = T.Env(M, cc, opaque=set())
                 re_t, im_t = T.from_ast(n.args[0], env), T.from_ast(n.args[1], env)
             except T.Unknown:
                 continue
@@ -230,7 +236,7 @@ def _check_scale(ctx: Ctx, ser_terms: Dict[str, T.Term]) -> None:
                       'apart' % (got.pretty(), h2, E.pretty()), FUND, cc.lineno, operand='scale')
     # ------------------------------------------------------------------ PSK
     cp = M.func(FUND, 'PSK._createConstellation')
-    loc = T.local_terms(M, cp)
+    loc = T.local_terms(M, cp, opaque=set())
     construct = 'PSK:scale'
     ctx.instance('C16.b', construct)
     need = {'phases', 'realPart', 'imagPart'}
